@@ -9,8 +9,15 @@ export tmp
 one() {
   d=$1; id=$(basename $d)
   prop=$(python3 -c "import json;print(json.load(open('$d/meta.json'))['breaks_property'])")
-  res=$(tools/run_mutant.sh $d/patch.diff $prop 2>&1)
-  rc=$(echo "$res" | grep -a '^rc=' | tail -1 | cut -d= -f2)
+  # (meta.json may name other checks to use: a change that breaks its property through a layer another check owns)
+  with=$(python3 -c "import json;print(' '.join(json.load(open('$d/meta.json')).get('detected_with', [])))")
+  rc=0
+  for c in ${with:-$prop}; do
+    prop=$c
+    res=$(tools/run_mutant.sh $d/patch.diff $prop 2>&1)
+    rc=$(echo "$res" | grep -a '^rc=' | tail -1 | cut -d= -f2)
+    [ "$rc" = "1" ] && break
+  done
   line=$(echo "$res" | grep -a "^$prop " | tail -1)
   sigs=$(echo "$res" | grep -a "violations with signature" | head -2 | sed 's/  violations with signature //' | tr '\n' ' ')
   printf '%s\t%s\t%s\t%s\t%s\n' "$id" "$prop" "$rc" "$line" "$sigs" > $tmp/$id.tsv
